@@ -79,7 +79,7 @@ Section C13.
   Theorem C13_unary_partial : forall (op : pyunop) (a rp : rep) (E : env) (v pv : val),
     visit_UnaryOp op a = OK rp ->
     cxx_eval E (r_expr a) = Some v -> type_of v = r_ty a -> in_range v = true ->
-    (op = Not \/ is_bool F v = false) ->
+    (op = Not \/ is_bool F v = false) -> is_long F v = false ->
     py_unary op v = Some pv -> in_range pv = true ->
     cxx_eval E (r_expr rp) = Some pv
     /\ cxx_assign E (r_ty rp) (r_expr rp) = widen_to (r_ty rp) pv
@@ -99,8 +99,8 @@ Section C13.
   (* A conditional yields its arm's value (widened to the double the result variable is declared as). *)
   Theorem C13_conditional : forall (t b o : rep) (E : env) (c x y : val),
     cxx_eval E (r_expr t) = Some c ->
-    cxx_eval E (r_expr b) = Some x -> type_of x = r_ty b ->
-    cxx_eval E (r_expr o) = Some y -> type_of y = r_ty o ->
+    cxx_eval E (r_expr b) = Some x -> type_of x = r_ty b -> is_long F x = false ->
+    cxx_eval E (r_expr o) = Some y -> type_of y = r_ty o -> is_long F y = false ->
     cxx_ifexp E (visit_IfExp t b o) = widen_to TDouble (py_ifexp c x y)
     /\ exists w, widen_to TDouble (py_ifexp c x y) = Some (VDbl w).
   Proof. exact (ifexp_correct F fadd fsub fmul fdiv fpow fpow32 fneg feqb fltb fleb fzero of_Z narrow32). Qed.
@@ -153,6 +153,25 @@ Section C13.
     is_intval F v1 && is_intval F v2 = false ->
     cxx_eval E (r_expr rp) = None.
   Proof. exact (mod_floating_illformed F fadd fsub fmul fdiv fpow fpow32 fneg feqb fltb fleb fzero of_Z narrow32). Qed.
+
+  (* Wide integer literals (abs >= 2**31) are written as they are - a C++ long - and declared int.
+     '/' with such a literal on either side is nevertheless the real division, because the cast to
+     double is applied to the left operand whenever no operand is declared double. *)
+  Theorem C13_div_wide_literal_right : forall (l rp : rep) (z : Z) (E : env) (v1 pv : val),
+    wide z ->
+    visit_BinOp Div l (visit_Constant_int z) = OK rp ->
+    cxx_eval E (r_expr l) = Some v1 -> type_of v1 = r_ty l -> numeric F v1 = true ->
+    py_binop Div v1 (VInt z) = Some pv ->
+    cxx_eval E (r_expr rp) = Some pv /\ r_ty rp = TDouble /\ pv = VDbl (fdiv (at64 F of_Z v1) (of_Z z)).
+  Proof. exact (div_wide_right F fadd fsub fmul fdiv fpow fpow32 fpymod fneg feqb fltb fleb fzero of_Z narrow32). Qed.
+
+  Theorem C13_div_wide_literal_left : forall (r rp : rep) (z : Z) (E : env) (v2 pv : val),
+    wide z ->
+    visit_BinOp Div (visit_Constant_int z) r = OK rp ->
+    cxx_eval E (r_expr r) = Some v2 -> type_of v2 = r_ty r -> numeric F v2 = true ->
+    py_binop Div (VInt z) v2 = Some pv ->
+    cxx_eval E (r_expr rp) = Some pv /\ r_ty rp = TDouble /\ pv = VDbl (fdiv (of_Z z) (at64 F of_Z v2)).
+  Proof. exact (div_wide_left F fadd fsub fmul fdiv fpow fpow32 fpymod fneg feqb fltb fleb fzero of_Z narrow32). Qed.
 End C13.
 
 Print Assumptions C13_binop_partial.
@@ -167,6 +186,8 @@ Print Assumptions C13_int_stays_int.
 Print Assumptions C13_int_stays_int_unary.
 Print Assumptions C13_expression.
 Print Assumptions C13_mod_floating_illformed.
+Print Assumptions C13_div_wide_literal_right.
+Print Assumptions C13_div_wide_literal_left.
 
 (* ---- what is false of the code, with witnesses (exact rational arithmetic as the floating type) ---- *)
 
@@ -220,6 +241,26 @@ Theorem C13_conditional_int_refuted :
   exists (t b o : rep), r_ty b = TInt /\ r_ty o = TInt /\ i_ty (visit_IfExp t b o) <> TInt.
 Proof. exact conditional_int_refuted. Qed.
 Print Assumptions C13_conditional_int_refuted.
+
+(* known finding c13:wide-int-literal-declared-int *)
+Theorem C13_wide_literal_refuted :
+  exists (E : env Q) (l rp : rep) (v1 pv : val Q),
+    visit_BinOp Add l (visit_Constant_int 4294967296) = OK rp /\
+    QI.eval E (r_expr l) = Some v1 /\ type_of v1 = r_ty l /\
+    QI.pybin Add v1 (VInt 4294967296) = Some pv /\ pv = VInt 4294967299 /\
+    r_ty rp = TInt /\ QI.eval E (r_expr rp) = Some (VLong 4294967299) /\
+    QI.assign E (r_ty rp) (r_expr rp) = Some (VInt 3).
+Proof. exact wide_literal_refuted. Qed.
+Print Assumptions C13_wide_literal_refuted.
+
+Example C13_ex_count_div_wide :
+  match translate (ABin Div (ALeaf "n" TInt) (AInt 4294967296)) with
+  | OK r => Some (show (r_expr r), ctype_name (r_ty r), QI.eval QI.E0 (r_expr r)) | Error _ => None end
+  = Some ("(static_cast<double>(n)/4294967296)", "double", Some (VDbl (3 # 4294967296))).
+Proof. vm_compute. reflexivity. Qed.
+
+Example C13_ex_int_constant_refused : translate (AInt 9223372036854775808) = Error ErrValue.
+Proof. reflexivity. Qed.
 
 (* ---- non-vacuity: the theorems' hypotheses are satisfiable and the model computes ---- *)
 Example C13_ex_count_div_2 :
